@@ -70,6 +70,10 @@
 /*@unit {'name':'c17_vec_erase_c4', 'props':['C17'], 'entry':'h_vec_erase', 'enforce':'Vector_erase', 'kind':'bounded', 'backend':'cadical', 'unwind':9, 'loop_contracts':False, 'defines':['CAPV=4'], 'cost':40,
          'bound':'capacity 4, 1..4 elements; loops unwound 8 times', 'claims':'same as c17_vec_erase_c8 for a block of 4'}@*/
 
+/*@unit {'name':'c17_vec_stubs', 'props':['C17'], 'entry':'h_vec_stubs', 'kind':'bounded', 'backend':'cadical', 'unwind':9, 'loop_contracts':False, 'defines':['CAPV=8','L2_BY_CONTRACT'], 'cost':20,
+         'bound':'vectors of at most 8 elements in a block of 8 or of 4 (the universe of the c17_vec_* units); loops unwound 8 times',
+         'claims':'the hand application of the Vector::insert / Vector::erase contracts used by the level-2 units (wrappers Vector_insert_g / Vector_erase_g) produces exactly a state that satisfies the ensures macros proved by c17_vec_insert_* / c17_vec_erase_* (size, returned iterator, element-wise content, kept or fresh-and-freed storage)'}@*/
+
 /* ---- level 2: the interval-set operations (plain harness, Vector::insert/erase applied by contract) */
 /*@unit {'name':'c17_remove_c8', 'props':['C17'], 'entry':'h_remove', 'kind':'bounded', 'backend':'cadical', 'unwind':9, 'unwindset':['Zones_remove.0:7'], 'loop_contracts':False, 'defines':['NV=4','CAPV=8','L2_BY_CONTRACT'], 'cost':50,
          'bound':'at most 4 intervals before the call in a block of capacity 8 (no reallocation); main loop unwound 6 times, helper loops 8 times, unwinding assertions on',
@@ -198,8 +202,11 @@ Exclusion g_v0[VMAX + 1]; size_t g_n0, g_cap0, g_idx; Exclusion *g_first0;
 #define CAP_COVERED(n, cap) ((cap) == 8 || ((cap) == 4 && (n) <= 4))
 #define GROWS(n, cap) (((((n) + 1 + 7) >> 3) << 3) > (cap))         /* _insert_default: reserve(round-up-to-8(size+1)) reallocates */
 
-#define VEC_INSERT_PRE(v, p)  (VEC_OK(v) && SNAP_OK(v) && g_n0 < VMAX && CAP_COVERED(g_n0, g_cap0) \
-                               && SAME(p, (v)->m_first) && OFF(p) == (long)g_idx * ESZ && g_idx <= g_n0)
+/* shape part of the preconditions, in terms of the snapshot (n = g_n0, cap = g_cap0, idx = g_idx) */
+#define VEC_SHAPE(v)  ((v)->m_first != NULL && SAME((v)->m_first, (v)->m_last) && SAME((v)->m_first, (v)->m_end) && OFF((v)->m_first) == 0 \
+                       && OFF((v)->m_last) == (long)g_n0 * ESZ && OFF((v)->m_end) == (long)g_cap0 * ESZ && OBJSZ((v)->m_first) == g_cap0 * sizeof(Exclusion) && g_n0 <= g_cap0)
+#define VEC_INSERT_PRE_SHAPE(v, p) (VEC_SHAPE(v) && g_n0 < VMAX && CAP_COVERED(g_n0, g_cap0) && SAME(p, (v)->m_first) && OFF(p) == (long)g_idx * ESZ && g_idx <= g_n0)
+#define VEC_INSERT_PRE(v, p)  (VEC_OK(v) && SNAP_OK(v) && VEC_INSERT_PRE_SHAPE(v, p))
 /* after insert at g_idx: slot k holds old k (k < idx), x (k == idx), old k-1 (k > idx) */
 #define INS1(v, k, x) ((k) > g_n0 || ((k) < g_idx ? EL_EQ((v)->m_first[k], g_v0[k]) : (k) == g_idx ? EL_EQ((v)->m_first[k], x) : EL_EQ((v)->m_first[k], g_v0[(k) - 1])))
 #define VEC_INSERT_POST_SHAPE(v, r) (VEC_OK(v) && VSZ(v) == g_n0 + 1 && (r) == (v)->m_first + g_idx)
@@ -207,8 +214,8 @@ Exclusion g_v0[VMAX + 1]; size_t g_n0, g_cap0, g_idx; Exclusion *g_first0;
 /* storage: kept when the rounded-up size fits, otherwise moved to a new block of 8 and the old block is released */
 #define VEC_INSERT_POST_STORE(v, freed) (GROWS(g_n0, g_cap0) ? (VCAP(v) == 8 && (v)->m_first != g_first0 && (freed)) : (VCAP(v) == g_cap0 && (v)->m_first == g_first0))
 
-#define VEC_ERASE_PRE(v, p)   (VEC_OK(v) && SNAP_OK(v) && g_n0 <= VMAX && CAP_COVERED(g_n0, g_cap0) \
-                               && SAME(p, (v)->m_first) && OFF(p) == (long)g_idx * ESZ && g_idx < g_n0)
+#define VEC_ERASE_PRE_SHAPE(v, p)  (VEC_SHAPE(v) && g_n0 <= VMAX && CAP_COVERED(g_n0, g_cap0) && SAME(p, (v)->m_first) && OFF(p) == (long)g_idx * ESZ && g_idx < g_n0)
+#define VEC_ERASE_PRE(v, p)   (VEC_OK(v) && SNAP_OK(v) && VEC_ERASE_PRE_SHAPE(v, p))
 /* after erase at g_idx: slot k holds old k (k < idx), old k+1 (k >= idx) */
 #define ERA1(v, k) ((k) + 1 >= g_n0 || ((k) < g_idx ? EL_EQ((v)->m_first[k], g_v0[k]) : EL_EQ((v)->m_first[k], g_v0[(k) + 1])))
 #define VEC_ERASE_POST_SHAPE(v, r, p) (VEC_OK(v) && VSZ(v) == g_n0 - 1 && VCAP(v) == g_cap0 && (v)->m_first == g_first0 && (r) == (p))
@@ -238,33 +245,37 @@ static void vec_snapshot(const Exclusions *v, const Exclusion *p)
 #ifdef L2_BY_CONTRACT
 static Exclusion nondet_excl(void)
 { Exclusion e; e.x = nondet_float(); e.xm = nondet_float(); e.c = nondet_float(); e.sm = nondet_float(); e.smx = nondet_float(); e.open = nondet_bool(); return e; }
-/* contract application by hand: assert requires; havoc assigns (+ frees); assume ensures */
+/* Contract application by hand.  Both contracts are functional: the ensures clauses fix the size, the capacity, the
+   identity (kept / fresh + old block freed) of the storage block, the returned iterator and every live element bit for
+   bit; only the dead slots past the new size are unconstrained.  The wrapper asserts the shape part of the requires
+   clause (the snapshot part holds by construction: vec_snapshot has just run), then CONSTRUCTS that post-state: live
+   slots from the snapshot, dead slots nondeterministic.  Unit c17_vec_stubs proves that the constructed state satisfies
+   the very ensures macros the c17_vec_* units prove of the extracted List.h code (assume+havoc of the bit-cast macros
+   inside the unwound loops is what made goto-symex stall). */
 static Exclusion *Vector_insert_g(Exclusions *v, Exclusion *p, const Exclusion x)
 {
     vec_snapshot(v, p);
-    __CPROVER_assert(VEC_INSERT_PRE(v, p), "precondition of the Vector::insert contract (proved by c17_vec_insert_c8/_c4)");
-    bool freed = false;
+    __CPROVER_assert(VEC_INSERT_PRE_SHAPE(v, p), "precondition of the Vector::insert contract (proved by c17_vec_insert_c8/_c4)");
+    size_t cap1 = g_cap0;
     if (GROWS(g_n0, g_cap0)) {
-        Exclusion *nb = malloc(8 * sizeof(Exclusion)); __CPROVER_assume(nb != NULL);      /* is_fresh */
-        free(v->m_first); freed = true;                                                   /* frees clause */
-        v->m_first = nb; v->m_end = nb + 8;
+        Exclusion *nb = malloc(8 * sizeof(Exclusion)); __CPROVER_assume(nb != NULL);      /* fresh block of 8 */
+        free(v->m_first);                                                                 /* frees clause: the old block is released */
+        v->m_first = nb; v->m_end = nb + 8; cap1 = 8;
     }
-    const size_t cap1 = VCAP(v);
-    for (size_t k = 0; k < VMAX; ++k) if (k < cap1) v->m_first[k] = nondet_excl();        /* assigns: the whole storage object */
-    v->m_last = v->m_first + (g_n0 + 1);
-    Exclusion *r = v->m_first + g_idx;
-    __CPROVER_assume(VEC_INSERT_POST_ELEMS(v, x));
-    __CPROVER_assert(VEC_INSERT_POST_SHAPE(v, r) && VEC_INSERT_POST_STORE(v, freed), "hand-applied Vector::insert contract: the constructed shape is the one the ensures clauses fix");
-    return r;
+    Exclusion *const a = v->m_first;
+    for (size_t k = 0; k < VMAX; ++k)
+        if (k < cap1) { if (k > g_n0) a[k] = nondet_excl(); else if (k < g_idx) a[k] = g_v0[k]; else if (k == g_idx) a[k] = x; else a[k] = g_v0[k - 1]; }
+    v->m_last = a + (g_n0 + 1);
+    return a + g_idx;
 }
 static Exclusion *Vector_erase_g(Exclusions *v, Exclusion *p)
 {
     vec_snapshot(v, p);
-    __CPROVER_assert(VEC_ERASE_PRE(v, p), "precondition of the Vector::erase contract (proved by c17_vec_erase_c8/_c4)");
-    for (size_t k = 0; k < VMAX; ++k) if (k < g_cap0) v->m_first[k] = nondet_excl();      /* assigns: the whole storage object */
-    v->m_last = v->m_first + (g_n0 - 1);
-    __CPROVER_assume(VEC_ERASE_POST_ELEMS(v));
-    __CPROVER_assert(VEC_ERASE_POST_SHAPE(v, p, p), "hand-applied Vector::erase contract: the constructed shape is the one the ensures clauses fix");
+    __CPROVER_assert(VEC_ERASE_PRE_SHAPE(v, p), "precondition of the Vector::erase contract (proved by c17_vec_erase_c8/_c4)");
+    Exclusion *const a = v->m_first;
+    for (size_t k = 0; k < VMAX; ++k)
+        if (k < g_cap0) { if (k + 1 >= g_n0) a[k] = nondet_excl(); else if (k < g_idx) a[k] = g_v0[k]; else a[k] = g_v0[k + 1]; }
+    v->m_last = a + (g_n0 - 1);
     return p;
 }
 static uint8 Exclusion_outcode_g(const Exclusion *self, float val)
@@ -609,6 +620,33 @@ void h_vec_erase(void)
     vec_snapshot(v, v->m_first + idx);
     Exclusion *r = Vector_erase(v, v->m_first + idx);
     (void)r;
+    CANARY();
+}
+#endif
+
+#ifdef UNIT_c17_vec_stubs
+void h_vec_stubs(void)
+{
+    const bool small = nondet_bool(), ins = nondet_bool();
+    size_t n = nondet_size_t(), idx = nondet_size_t();
+    const size_t cap = small ? 4 : 8;
+    __CPROVER_assume(n <= cap && (ins ? (n < VMAX && idx <= n) : idx < n));
+    Exclusions *v = malloc(sizeof(Exclusions)); __CPROVER_assume(v != NULL);
+    Exclusion *a = small ? malloc(4 * sizeof(Exclusion)) : malloc(8 * sizeof(Exclusion)); __CPROVER_assume(a != NULL);
+    for (size_t k = 0; k < 8; ++k) if (k < cap) a[k].open = nondet_bool();
+    v->m_first = a; v->m_last = a + n; v->m_end = a + cap;
+    Exclusion x; x.open = nondet_bool();
+    Exclusion *const p = a + idx;
+    if (ins) {
+        Exclusion *r = Vector_insert_g(v, p, x);
+        __CPROVER_assert(VEC_INSERT_POST_SHAPE(v, r), "stub insert: shape clause of the contract");
+        __CPROVER_assert(VEC_INSERT_POST_ELEMS(v, x), "stub insert: element clause of the contract");
+        __CPROVER_assert(VEC_INSERT_POST_STORE(v, __CPROVER_DEALLOCATED(g_first0)), "stub insert: storage clause of the contract");
+    } else {
+        Exclusion *r = Vector_erase_g(v, p);
+        __CPROVER_assert(VEC_ERASE_POST_SHAPE(v, r, p), "stub erase: shape clause of the contract");
+        __CPROVER_assert(VEC_ERASE_POST_ELEMS(v), "stub erase: element clause of the contract");
+    }
     CANARY();
 }
 #endif
